@@ -3,6 +3,7 @@ Local Open Scope nat_scope.
 
 Section WrapperProofs.
   Variable R : StarRing.
+  Add Ring RrAG : (k_ring R).
   Notation vec := (nat -> R).
 
   Lemma wrapper_vjp_parity k (fw bw : vec -> vec) :
@@ -35,6 +36,18 @@ Section WrapperProofs.
   Proof.
     intros _. cbn zeta. rewrite !wrapper_history.
     destruct (Nat.even (length (filter (fun b => b) h))); split; intros E; try discriminate; split; reflexivity.
+  Qed.
+
+  (* real input (repaired wrapper: the gradient handed back for a real input is the real part of the adjoint applied to the cotangent):
+     for a real vector x, twice the real part of <A x, g> is <x, 2 Re(A^H g)> - so Re(A^H g) is the gradient of the real-valued loss
+     Re<g, A x> with respect to the real variable x (stated with a + conj a = 2 Re a, which needs no division) *)
+  Local Open Scope K_scope.
+  Theorem real_input_gradient (A : linop R) (x g : vec) : adjoint_pair A -> (forall j, kconj (x j) = x j) ->
+    inner (ran A) (fwd A x) g + kconj (inner (ran A) (fwd A x) g)
+    = inner (dom A) x (fun j => adj A g j + kconj (adj A g j)).
+  Proof.
+    intros HA Hx. rewrite (HA x g). rewrite inner_conj_sym. unfold inner. rewrite <- sum_add. apply sum_ext. intros j _.
+    rewrite kconj_add, kconj_inv, (Hx j). ring.
   Qed.
 End WrapperProofs.
 
